@@ -135,3 +135,22 @@ Section AR.
       rewrite ?ar_pdf_even_x, ?ar_pdf_even_y; reflexivity.
   Qed.
 End AR.
+
+(* ---- the scale-factor kernel of the relative-amplitude likelihood: estimate_scale_mu_s (cprobability.pyx) against the
+   per-station formulas of probability.scale_estimator (both regenerated) *)
+Theorem estimate_scale_equiv x y mux muy psx psy :
+  estimate_scale_mu_s x y mux muy psx psy =
+  (py_scale_mu (Rabs (x / y)) (Rabs mux) (Rabs muy) psx psy, py_scale_s (Rabs (x / y)) (Rabs mux) (Rabs muy) psx psy).
+Proof.
+  unfold estimate_scale_mu_s, py_scale_mu, py_scale_s. cbv zeta.
+  set (z := Rabs (x / y)). set (a := Rabs mux). set (b := Rabs muy). clearbody z a b.
+  rewrite (sqrt_div 2 PI) by (try lra; apply PI_RGT_0).
+  replace ((- b * b) / (2 * (psy * b * (psy * b)))) with (- (1 / 2) * (b * b / (psy * b * (psy * b))))
+    by (unfold Rdiv; rewrite ?Rinv_mult; ring).
+  set (e := exp _). clearbody e.
+  set (s1 := sqrt _). clearbody s1.
+  set (q2 := sqrt 2). set (qp := sqrt PI). clearbody q2 qp.
+  match goal with |- (_ / (_ * ?Nc), _) = (_ / ?Np, _) =>
+    assert (HN : Nc = Np) by (unfold Rdiv; rewrite ?Rinv_mult; ring); rewrite HN; set (N := Np); clearbody N end.
+  f_equal; [| f_equal]; unfold Rdiv; rewrite ?Rinv_mult; ring.
+Qed.
